@@ -413,6 +413,20 @@ fn configs(thorough: bool) -> Vec<Cfg> {
             }
         }
     }
+    // Raptor with blocks of two different lengths and a short last symbol (the decoder is the only one that uses
+    // the byte length of a block), many repair symbols, with and without MD5
+    for (e, b, parity, len) in [(16u16, 6u16, 10u16, 174usize), (4, 5, 3, 35), (4, 5, 6, 34), (8, 7, 8, 8 * 11 - 3)] {
+        for md5 in [false, true] {
+            for inband_fti in [true, false] {
+                if !thorough && !inband_fti && md5 {
+                    continue;
+                }
+                let mut x = c(Scheme::Raptor, e, b, parity, len, 0, inband_fti, 1, false, 1);
+                x.md5 = md5;
+                v.push(x);
+            }
+        }
+    }
     // small content-encoded objects cut into blocks so small that the last block(s) hold nothing but the
     // encoding's trailer (gzip: 8 bytes, zlib: 4): the content is complete before the last block is written,
     // the Content-MD5 must be checked all the same (stored deflate blocks, so that a flipped payload byte
